@@ -75,8 +75,8 @@ fn filter_record(kinds: &[&str], bad: Option<usize>, rng: &mut StdRng) -> Value 
     let mut res = Vec::new();
     for o in 0..N_OPTS {
         // which of the two builder call orders is used depends on the case only (replayable)
-        let alt = (kinds.len() + bad.map_or(0, |b| b + 1) + o) % 2 == 1;
-        let dec = codec::decoder_for_alt(o, &key, alt);
+        let mode = (kinds.len() + bad.map_or(0, |b| b + 1) + o) % 3;
+        let dec = codec::decoder_for_mode(o, &key, mode);
         let r = catch_unwind(AssertUnwindSafe(|| dec.decode(&bytes)));
         match r {
             Err(_) => res.push(json!({"ok":false,"panic":true,"idx":[],"unk":[],"size":-1})),
@@ -241,6 +241,35 @@ fn mk_encoder(ctx: u8) -> stun_rs::MessageEncoder {
     }
 }
 
+/// single attributes whose own value is larger than the 16-bit length field: PASSWORD-ALGORITHM /
+/// PASSWORD-ALGORITHMS with `n` parameter bytes, UNKNOWN-ATTRIBUTES with `n` types ("pwdalg:n" ...).
+/// Returns the message and the length of the attribute value.
+fn special_msg(spec: &str, id: [u8; 12]) -> Option<(stun_rs::StunMessage, usize)> {
+    use stun_rs::attributes::stun::{PasswordAlgorithm, PasswordAlgorithms, UnknownAttributes};
+    use stun_rs::{Algorithm, AlgorithmId};
+    let (kind, n) = spec.split_once(':')?;
+    let n: usize = n.parse().ok()?;
+    let b = stun_rs::StunMessageBuilder::new(stun_rs::methods::BINDING, stun_rs::MessageClass::Request)
+        .with_transaction_id(stun_rs::TransactionId::from(id));
+    let params: Vec<u8> = (0..n).map(|i| (i * 13) as u8).collect();
+    Some(match kind {
+        "pwdalg" => (b.with_attribute(PasswordAlgorithm::new(Algorithm::new(AlgorithmId::SHA256, params.as_slice()))).build(), 4 + n),
+        "pwdalgs" => {
+            let mut l = PasswordAlgorithms::default();
+            l.add(PasswordAlgorithm::new(Algorithm::new(AlgorithmId::MD5, params.as_slice())));
+            (b.with_attribute(l).build(), 4 + n)
+        }
+        "unkattrs" => {
+            let mut u = UnknownAttributes::default();
+            for i in 0..n {
+                u.add(i as u16);
+            }
+            (b.with_attribute(u).build(), 2 * n.min(65536))
+        }
+        _ => return None,
+    })
+}
+
 fn enc_record(lens: &[usize], buf: usize, prefill: u8, big: &Option<Vec<u8>>, id: [u8; 12], ctx: u8) -> Value {
     let msg = build_len_msg(lens, id);
     enc_record_msg(&msg, json!(lens), json!([]), false, buf, prefill, big, id, ctx)
@@ -350,6 +379,18 @@ fn cmd_buffers(args: &[String]) {
                 n += 1;
                 continue;
             }
+            if let Some(spec) = c["special"].as_str() {
+                if let Some((msg, vlen)) = special_msg(spec, id) {
+                    let mut r = enc_record_msg(&msg, json!([vlen]), json!([]), false, c["buf"].as_u64().unwrap() as usize,
+                                               c["prefill"].as_u64().unwrap_or(0) as u8, &None, id, 0);
+                    r["special"] = json!(spec);
+                    r["have_big"] = json!(true);
+                    r["same"] = json!(true);
+                    writeln!(f, "{}", r).unwrap();
+                    n += 1;
+                }
+                continue;
+            }
             let lens: Vec<usize> = c["lens"].as_array().unwrap().iter().map(|x| x.as_u64().unwrap() as usize).collect();
             let big = big_encoding(&lens, id, ctx);
             let r = enc_record(&lens, c["buf"].as_u64().unwrap() as usize, c["prefill"].as_u64().unwrap_or(0) as u8, &big, id, ctx);
@@ -425,6 +466,20 @@ fn cmd_buffers(args: &[String]) {
         nmsg += 1;
         for buf in [0usize, 19, 20, 24, need.saturating_sub(1), need, need + 1, need + 8, 65535, 65536, 65556, 70000, 300000] {
             writeln!(f, "{}", enc_record(&lens, buf, 0xA5, &big, id, ctx)).unwrap();
+            n += 1;
+        }
+    }
+    // one attribute whose own value does not fit the 16-bit attribute length
+    for spec in ["pwdalg:65532", "pwdalg:65536", "pwdalg:70000", "pwdalgs:65536", "pwdalgs:70000", "unkattrs:32767", "unkattrs:32768", "unkattrs:40000"] {
+        let Some((msg, vlen)) = special_msg(spec, id) else { continue };
+        nmsg += 1;
+        for buf in [0usize, 24, 65535, 65563, 70100, 200000] {
+            let mut r = enc_record_msg(&msg, json!([vlen]), json!([]), false, buf, 0x3C, &None, id, 0);
+            r["special"] = json!(spec);
+            // no reference encoding: whether it is the same with another buffer is not judged here
+            r["have_big"] = json!(true);
+            r["same"] = json!(true);
+            writeln!(f, "{}", r).unwrap();
             n += 1;
         }
     }
